@@ -8,55 +8,19 @@
  *   hp <strhex>       -> 0 <hex size> | -1 <hex size>
  *
  * PARSENUM's bounds are compile-time expressions, so the call sites are generated C
- * (parsenum_sites.inc, tools/gen_parsenum_sites.py); tokens 2..8 of a case line must equal the
+ * (parsenum_sites.inc in four parts, tools/gen_parsenum_sites.py); tokens 2..8 of a case line must equal the
  * site's own description or the line is refused.  Every input string lives in a malloc block of
  * exactly strlen+1 bytes (ASan build). */
 #include "drv_common.h"
 
-#include <errno.h>
-#include <inttypes.h>
-#include <math.h>
-
-#include "parsenum.h"
+#include "drv_parsenum.h"
 #include "humansize.h"
 
-static const char * errname(int e)
-{
-	if (e == 0) return "OK";
-	if (e == EINVAL) return "EINVAL";
-	if (e == ERANGE) return "ERANGE";
-	return "EOTHER";
-}
-
-static void report_u(int rc, uintmax_t v)
-{
-	int e = errno;
-	if ((rc != 0) != (e != 0)) { printf("rc-mismatch rc=%d errno=%d\n", rc, e); return; }
-	printf("%s %" PRIxMAX "\n", errname(e), v);
-}
-
-static void report_s(int rc, intmax_t v)
-{
-	int e = errno;
-	if ((rc != 0) != (e != 0)) { printf("rc-mismatch rc=%d errno=%d\n", rc, e); return; }
-	if (v < 0)
-		printf("%s -%" PRIxMAX "\n", errname(e), (uintmax_t)0 - (uintmax_t)v);
-	else
-		printf("%s %" PRIxMAX "\n", errname(e), (uintmax_t)v);
-}
-
-static void report_f(int rc, double v)
-{
-	int e = errno;
-	uint64_t bits;
-	if ((rc != 0) != (e != 0)) { printf("rc-mismatch rc=%d errno=%d\n", rc, e); return; }
-	if (isnan(v)) { printf("%s nan\n", errname(e)); return; }
-	memcpy(&bits, &v, 8);
-	printf("%s %016" PRIx64 "\n", errname(e), bits);
-}
-
-struct site { const char * desc; void (*run)(const char *); };
+/* the generated tables (drv_parsenum_p0.c .. p3.c); only the sizes are needed here */
+#define SITES_PART (-1)
 #include "parsenum_sites.inc"
+extern const struct site sites_part0[], sites_part1[], sites_part2[], sites_part3[];
+static const struct site * const parts[SITES_NPARTS] = { sites_part0, sites_part1, sites_part2, sites_part3 };
 
 int main(void)
 {
@@ -69,12 +33,12 @@ int main(void)
 			unsigned long k = strtoul(tok[1], NULL, 10);
 			snprintf(desc, sizeof(desc), "%s %s %s %s %s %s %s", tok[2], tok[3], tok[4], tok[5],
 			    tok[6], tok[7], tok[8]);
-			if (k >= NSITES || strcmp(desc, sites[k].desc) != 0) {
-				printf("site-mismatch\n");
-				continue;
-			}
+			const struct site * st;
+			if (k >= NSITES) { printf("site-mismatch\n"); continue; }
+			st = &parts[k / SITES_PER_PART][k % SITES_PER_PART];
+			if (strcmp(desc, st->desc) != 0) { printf("site-mismatch\n"); continue; }
 			s = drv_unhex(tok[9], &len, 1);		/* exactly strlen + 1 bytes */
-			sites[k].run((const char *)s);
+			st->run((const char *)s);
 			free(s);
 		} else if (n == 2 && strcmp(tok[0], "hs") == 0) {
 			uint64_t v = (uint64_t)strtoumax(tok[1], NULL, 16);
